@@ -29,3 +29,14 @@ Theorem C05_write_only_last : forall fl ps,
   (forall a b, accept_params fl (a ++ TWrite :: b ++ [TPrim]) = false).
 Proof. exact write_only_last. Qed.
 Print Assumptions C05_write_only_last.
+
+(* "no elided lifetimes in return types" (rule 9): an elided lifetime of the return type whose source is itself not a
+   named lifetime (`fn f(&self) -> &T`, `fn f(x: &T) -> &T`) makes validation refuse the method, whatever else the
+   signature contains (Lifetimes/Elision.v models core/src/hir/elision.rs, Lifetimes/Model.v the validation) *)
+From Coq Require Import Arith.
+From DV Require Import Lifetimes.Model Lifetimes.Elision Lifetimes.ElisionProofs.
+Theorem C05_elided_return_rejected : forall g i m k ds,
+  (elision_source g = SelfParam (Lt i) \/ elision_source g = OneParam (Lt i)) -> s_n g <= i ->
+  ret_elided (s_ret g) = true -> lower_sig g = Some (m, k) -> validate_method ds m = false.
+Proof. exact elided_return_of_anonymous_source_rejected. Qed.
+Print Assumptions C05_elided_return_rejected.
